@@ -616,9 +616,9 @@ inst!(avx2_one_count_len160, [props=C07 xprops=C05+C14 tier=thorough cfg=x86std 
 // 2 lanes at long lengths: LOOP_SIZE is 8 bytes, so 80 bytes are ten unrolled
 // iterations -- this is where code gated on "many loop iterations" (e.g. a
 // skim pre-loop for len >= 8 * LOOP_SIZE) becomes reachable cheaply.
-inst!(g2_one_find_80, [props=C01 xprops=C05+C14 tier=quick cfg=x86std t=1500 role=generic-2lane-find-long uw=find_raw.0:12;find_raw.1:4], 4,
+inst!(g2_one_find_80, [props=C01 xprops=C05+C14 tier=quick cfg=x86std t=1500 role=generic-2lane-find-long uw=find_raw:12], 12,
     generic::find::<2, 81>(1, false, 80));
-inst!(g2_one_rfind_80, [props=C02 xprops=C05+C14 tier=quick cfg=x86std t=1500 role=generic-2lane-rfind-long uw=find_raw.0:12;find_raw.1:4], 4,
+inst!(g2_one_rfind_80, [props=C02 xprops=C05+C14 tier=quick cfg=x86std t=1500 role=generic-2lane-rfind-long uw=find_raw:12], 12,
     generic::find::<2, 81>(1, true, 80));
 inst!(g2_three_rfind_40, [props=C02 xprops=C05+C14 tier=thorough cfg=x86std t=1500 role=generic-2lane-rfind-long uw=find_raw.0:12;find_raw.1:4], 4,
     generic::find::<2, 41>(3, true, 40));
